@@ -267,7 +267,13 @@ def run(ctx):
         if r.random() < 0.1:
             hdr += bytes([r.randint(128, 255)])
         if r.random() < 0.05:
-            hdr = bytes(r.randint(0, 255) for _ in range(r.randint(0, 12)))
+            # garbage header: random varints of at most 6 bytes (serial types stay far below 2^53, where the
+            # float arithmetic of get_content_size is exact: larger lengths are outside the property's quantifier)
+            hdr = b""
+            for _ in range(r.randint(0, 5)):
+                hdr += put_varint(r.randint(0, (1 << r.choice([7, 14, 21, 28, 35, 42])) - 1))
+            if r.random() < 0.3 and hdr:
+                hdr = hdr[:-1]
         cases.append((f"serial.body {hx(hdr)}", impl_body(hdr)))
     ctx.differential(cases, "serial.body")
     # oracle: sum of Spec lengths
